@@ -26,6 +26,10 @@ Srcs0 == <<
   [id |-> "3", name |-> "conflict", shared |-> FALSE,
    fields |-> [x |-> A("int", FALSE), n |-> A("int", FALSE), r |-> R(FALSE, "tt")],
    vals |-> [x |-> V(1), n |-> V(1), r |-> Ids(<<"a">>)]],
+  \* an attribute named like a relationship of the collection and a relationship named like an attribute
+  [id |-> "4", name |-> "crosskind", shared |-> FALSE,
+   fields |-> [r |-> A("string", FALSE), x |-> R(TRUE, "tt"), n |-> A("int", TRUE)],
+   vals |-> [r |-> V(1), x |-> Ids(<<"a">>), n |-> V(2)]],
   \* a soft resource created on the collection's own *Type
   [id |-> "2", name |-> "ct", shared |-> TRUE, fields |-> TBase.fields,
    vals |-> [x |-> V(2), n |-> V(1), r |-> Ids(<<>>), m |-> Ids(<<"a">>)]]
